@@ -399,4 +399,11 @@ def c13_g(ctx: Ctx):
     return res
 
 
-RULES = [c13_a, c13_b, c13_c, c13_d, c13_e, c13_f, c13_g]
+@rule("C13-h")
+def c13_h(ctx: Ctx):
+    """Per-job / per-entry loops are independent: nothing read in one iteration was computed in another."""
+    from .lints import per_item_loops
+    return per_item_loops(ctx, "C13-h", [('signac.sync:sync_projects', 'a job is synchronised with the handle / decision of the previous job'), ('signac.sync:_sync_job_workspaces', 'a file is copied to / from the path computed for the previous entry'), ('signac.sync:sync_jobs', 'state of a previous job leaks into this one')])
+
+
+RULES = [c13_a, c13_b, c13_c, c13_d, c13_e, c13_f, c13_g, c13_h]
